@@ -59,6 +59,10 @@ def unsafe_sites(program, modules):
 
 
 def run(chk):
+    # the document is read while its stream is open (shared with C13)
+    from . import c13
+
+    chk.guard("O13.7", c13.YAML_LOAD, c13.read_while_open, chk)
     prog = chk.program
     chk.facts.update({k: v for k, v in libfacts.cross_read().items() if "yaml" in k})
     # ---- O18.1 loader ancestry -------------------------------------------------------------
